@@ -43,20 +43,11 @@ Qed.
 (* ---------------------------------------------------------------- *)
 (* newSubnet *)
 
-Lemma newSubnet_no_fuel c : newSubnet c <> Fuel.
+Lemma newSubnet_total c : newSubnet c <> Panic /\ newSubnet c <> Fuel.
 Proof.
-  unfold newSubnet. destruct (negb (pvalid (s_lan c))); [discriminate|].
-  destruct (s_lan c) as [|[|n|v z] b]; try discriminate.
-  repeat match goal with |- context [if ?x then _ else _] => destruct x end; discriminate.
-Qed.
-
-Lemma newSubnet_panic_iff c : newSubnet c = Panic <-> lan_v6 (Some c) = true.
-Proof.
-  unfold newSubnet, lan_v6.
-  destruct (pvalid (s_lan c)) eqn:Ev; simpl; [|split; discriminate].
-  destruct (s_lan c) as [|[|n|v z] b]; simpl in *; try discriminate; try tauto.
-  split; [|discriminate].
-  repeat match goal with |- context [if ?x then _ else _] => destruct x end; discriminate.
+  unfold newSubnet. destruct (negb (pvalid (s_lan c)) || negb (is4 (paddr (s_lan c)))); [split; discriminate|].
+  destruct (s_lan c) as [|[|n|v z] b]; try (split; discriminate).
+  repeat match goal with |- context [if ?x then _ else _] => destruct x end; split; discriminate.
 Qed.
 
 (* what a successful newSubnet returns *)
@@ -74,7 +65,7 @@ Lemma newSubnet_ok c s : newSubnet c = Ok s ->
     is_unspec (s_dns c) = false.
 Proof.
   unfold newSubnet. destruct (pvalid (s_lan c)) eqn:Ev; simpl; [|discriminate].
-  destruct (s_lan c) as [|[|n|v z] b] eqn:El; try discriminate.
+  destruct (s_lan c) as [|[|n|v z] b] eqn:El; simpl; try discriminate.
   simpl in Ev.
   destruct ((s_stage c =? 1) || (s_stage c =? 3)) eqn:Est; simpl; [|discriminate].
   destruct (contains (P (A4 n) b) (s_gw c)) eqn:Egw; simpl; [|discriminate].
@@ -118,88 +109,27 @@ Proof.
 Qed.
 
 (* ---------------------------------------------------------------- *)
-(* the validation loop never fails with an error and panics only in the recorded classes *)
+(* loadByteArray neither panics nor loops *)
 
-Lemma load_loop_shape cap n1 n2 rs : forall tt,
-  (exists t, load_loop cap n1 n2 rs tt = Ok t) \/ load_loop cap n1 n2 rs tt = Panic.
+Lemma opt_subnet_total o : opt_subnet o <> Panic /\ opt_subnet o <> Fuel.
 Proof.
-  induction rs as [|v rest IH]; intros tt; simpl; [left; eauto|].
-  repeat match goal with
-         | |- context [if ?x then _ else _] => destruct x
-         | |- context [match ?x with _ => _ end] => destruct x
-         end; auto.
+  destruct o as [c|]; simpl; [|split; discriminate].
+  destruct (newSubnet_total c). destruct (newSubnet c); simpl; split; congruence.
 Qed.
 
-Definition olan (o : option subnet) : option prefix := option_map (fun s => s_lan (n_cfg s)) o.
-
-Lemma load_loop_no_panic cap n1 n2 rs : forall tt,
-  nil_deref cap (olan n1) (olan n2) rs = 0 -> load_loop cap n1 n2 rs tt <> Panic.
-Proof.
-  induction rs as [|v rest IH]; intros tt; simpl; [discriminate|].
-  destruct (r_state v =? 2)%Z; simpl; [|apply IH].
-  destruct (avalid (r_ip v)); simpl; [|apply IH].
-  destruct n1 as [s1|]; simpl; [|discriminate].
-  destruct (contains (s_lan (n_cfg s1)) (r_ip v)); simpl; [|apply IH].
-  destruct (r_cid v); [apply IH|].
-  destruct (cap (r_mac v)); [|apply IH].
-  destruct n2 as [s2|]; simpl; [apply IH|discriminate].
-Qed.
-
-Lemma load_loop_panic cap n1 n2 rs : forall tt,
-  nil_deref cap (olan n1) (olan n2) rs <> 0 -> load_loop cap n1 n2 rs tt = Panic.
-Proof.
-  induction rs as [|v rest IH]; intros tt; simpl; [congruence|].
-  destruct (r_state v =? 2)%Z; simpl; [|apply IH].
-  destruct (avalid (r_ip v)); simpl; [|apply IH].
-  destruct n1 as [s1|]; simpl; [|reflexivity].
-  destruct (contains (s_lan (n_cfg s1)) (r_ip v)); simpl; [|apply IH].
-  destruct (r_cid v); [apply IH|].
-  destruct (cap (r_mac v)); [|apply IH].
-  destruct n2 as [s2|]; simpl; [apply IH|reflexivity].
-Qed.
-
-Lemma opt_subnet_olan o o' : opt_subnet o = Ok o' -> olan o' = lan_of o.
-Proof.
-  destruct o as [c|]; simpl.
-  - destruct (newSubnet c) as [s| | |] eqn:E; simpl; try discriminate.
-    intros H. inversion H; subst. simpl. destruct (newSubnet_lan _ _ E) as [-> _]. reflexivity.
-  - intros H. inversion H. reflexivity.
-Qed.
-
-Lemma opt_subnet_no_fuel o : opt_subnet o <> Fuel.
-Proof.
-  destruct o as [c|]; simpl; [|discriminate].
-  pose proof (newSubnet_no_fuel c). destruct (newSubnet c); simpl; congruence.
-Qed.
-
-(* load panics exactly in the three recorded classes *)
-Lemma load_panic_iff cap d : load cap d = Panic <-> panic_class cap d <> 0.
-Proof.
-  unfold load, panic_class.
-  destruct (opt_subnet (d_net1 d)) as [o1|e1| |] eqn:E1; simpl.
-  2:{ split; [discriminate|congruence]. }
-  2:{ split; [discriminate|reflexivity]. }
-  2:{ exfalso. eapply opt_subnet_no_fuel; eauto. }
-  destruct (opt_subnet (d_net2 d)) as [o2|e2| |] eqn:E2; simpl.
-  2:{ split; [discriminate|congruence]. }
-  2:{ split; [discriminate|reflexivity]. }
-  2:{ exfalso. eapply opt_subnet_no_fuel; eauto. }
-  rewrite <- (opt_subnet_olan _ _ E1), <- (opt_subnet_olan _ _ E2).
-  destruct (N.eq_dec (nil_deref cap (olan o1) (olan o2) (d_leases d)) 0) as [Hz|Hz].
-  - pose proof (load_loop_no_panic cap o1 o2 (d_leases d) [] Hz) as Hnp.
-    destruct (load_loop_shape cap o1 o2 (d_leases d) []) as [[t Ht]|Hp]; [|contradiction].
-    rewrite Ht. simpl. split; [discriminate|congruence].
-  - rewrite (load_loop_panic cap o1 o2 (d_leases d) [] Hz). simpl. tauto.
-Qed.
-
-Lemma load_no_fuel cap d : load cap d <> Fuel.
+Lemma load_total cap d : load cap d <> Panic /\ load cap d <> Fuel.
 Proof.
   unfold load.
-  destruct (opt_subnet (d_net1 d)) as [o1|e1| |] eqn:E1; simpl; try discriminate.
-  2:{ exfalso. eapply opt_subnet_no_fuel; eauto. }
-  destruct (opt_subnet (d_net2 d)) as [o2|e2| |] eqn:E2; simpl; try discriminate.
-  2:{ exfalso. eapply opt_subnet_no_fuel; eauto. }
-  destruct (load_loop_shape cap o1 o2 (d_leases d) []) as [[t Ht]|Hp]; [rewrite Ht|rewrite Hp]; simpl; discriminate.
+  destruct (opt_subnet_total (d_net1 d)). destruct (opt_subnet_total (d_net2 d)).
+  destruct (opt_subnet (d_net1 d)) as [o1|e1| |]; simpl; try congruence; try (split; discriminate).
+  destruct (opt_subnet (d_net2 d)) as [o2|e2| |]; simpl; try congruence; try (split; discriminate).
+  destruct o1, o2; split; discriminate.
+Qed.
+
+Lemma loadConfig_total cap i : loadConfig cap i <> Panic /\ loadConfig cap i <> Fuel.
+Proof.
+  destruct i as [| |d]; simpl; try (split; discriminate).
+  destruct (load_total cap d). destruct (load cap d) as [[[a b] t]| | |]; simpl; split; congruence.
 Qed.
 
 (* ---------------------------------------------------------------- *)
@@ -222,9 +152,7 @@ Proof.
   destruct (pvalid (c_netfilter c)); simpl; [|left; auto].
   destruct (contains (c_home c) (paddr (c_netfilter c))); simpl; [|left; auto].
   right.
-  assert (Hnf : loadConfig cap i <> Fuel).
-  { destruct i; simpl; try discriminate.
-    pose proof (load_no_fuel cap d). destruct (load cap d) as [[[a b] t]| | |]; simpl; congruence. }
+  assert (Hnf : loadConfig cap i <> Fuel) by apply loadConfig_total.
   destruct (loadConfig cap i) as [[[o1 o2] ot]|e| |] eqn:E; try congruence.
   - destruct o1 as [n1|]; [|right; left; repeat split; auto; discriminate].
     destruct o2 as [n2|]; [|right; left; repeat split; auto; discriminate].
@@ -238,52 +166,23 @@ Proof.
   - left. auto.
 Qed.
 
-(* the reset path does not panic when the NIC's home LAN is an IPv4 prefix *)
-Lemma reset_no_panic c : is4 (paddr (c_home c)) = true -> cfg_ok c = true ->
-  reset c <> Panic /\ reset c <> Fuel.
+(* the reset path neither panics nor loops *)
+Lemma reset_total c : reset c <> Panic /\ reset c <> Fuel.
 Proof.
-  intros H4 Hok. unfold cfg_ok in Hok. apply andb_true_iff in Hok. destruct Hok as [Hv Hc].
   unfold reset.
-  assert (P1 : newSubnet (homeSubnet c) <> Panic).
-  { intros HP. apply newSubnet_panic_iff in HP. unfold lan_v6 in HP. simpl in HP. rewrite H4 in HP.
-    rewrite andb_false_r in HP. discriminate. }
-  assert (P2 : newSubnet (netfilterSubnet c) <> Panic).
-  { intros HP. apply newSubnet_panic_iff in HP. unfold lan_v6 in HP. simpl in HP.
-    destruct (c_home c) as [|[|n|v z] b]; simpl in H4; try discriminate.
-    destruct (contains4_is4 _ _ _ Hc) as [m Em].
-    destruct (c_netfilter c) as [|a b']; simpl in *; try discriminate. subst a. simpl in HP.
-    rewrite andb_false_r in HP. discriminate. }
-  pose proof (newSubnet_no_fuel (homeSubnet c)).
-  pose proof (newSubnet_no_fuel (netfilterSubnet c)).
+  destruct (newSubnet_total (homeSubnet c)). destruct (newSubnet_total (netfilterSubnet c)).
   destruct (newSubnet (homeSubnet c)); simpl; try congruence; try (split; discriminate).
   destruct (newSubnet (netfilterSubnet c)); simpl; try congruence; split; discriminate.
 Qed.
 
-(* C18_new_total, on the complement of the recorded panic classes *)
-Lemma new_total_partial c cap i :
-  is4 (paddr (c_home c)) = true ->
-  known_C18_panic cap i = 0 ->
-  new c cap i <> Panic /\ new c cap i <> Fuel.
+(* C18_new_total: the constructor neither panics nor loops, whatever the file *)
+Lemma new_total c cap i : new c cap i <> Panic /\ new c cap i <> Fuel.
 Proof.
-  intros H4 Hk.
   destruct (new_cases c cap i) as [[_ ->]|[(Hok & HP & _)|[(Hok & _ & ->)|(Hok & n1 & n2 & t & _ & _ & _ & ->)]]].
   - split; discriminate.
-  - exfalso. destruct i as [| |d]; simpl in HP; try discriminate.
-    simpl in Hk.
-    destruct (load cap d) as [[[a b] t]| | |] eqn:E; simpl in HP; try discriminate.
-    apply load_panic_iff in E. contradiction.
-  - apply reset_no_panic; auto.
+  - exfalso. destruct (loadConfig_total cap i). contradiction.
+  - apply reset_total.
   - split; discriminate.
-Qed.
-
-(* conversely every recorded class does panic (the predicate is exact) *)
-Lemma new_panics_in_class c cap i :
-  cfg_ok c = true -> known_C18_panic cap i <> 0 -> new c cap i = Panic.
-Proof.
-  intros Hok Hk. destruct i as [| |d]; simpl in Hk; try congruence.
-  apply load_panic_iff in Hk.
-  unfold new. unfold cfg_ok in Hok. apply andb_true_iff in Hok. destruct Hok as [-> ->]. simpl.
-  rewrite Hk. reflexivity.
 Qed.
 
 (* witnesses *)
@@ -291,23 +190,17 @@ Definition ex_cfg : cfg :=
   {| c_home := P (A4 3232235520) 24; c_host := A4 3232235649; c_router := A4 3232235531;
      c_netfilter := P (A4 3232235649) 25; c_dns := A4 134744072 |}.
 Definition ex_doc_nonet1 : doc := {| d_net1 := None; d_net2 := Some ex_net2; d_leases := [ex_rec] |}.
-Definition ex_doc_nonet2 : doc := {| d_net1 := Some ex_net1; d_net2 := None; d_leases := [ex_rec] |}.
 Definition ex_doc_v6 : doc :=
   {| d_net1 := Some {| s_lan := P (A6 (338288524927261089654018896841347694592) []) 64; s_gw := s_gw ex_net1; s_dhcp := s_dhcp ex_net1;
                        s_dns := s_dns ex_net1; s_first := s_first ex_net1; s_dur := s_dur ex_net1; s_stage := 1 |};
-     d_net2 := Some ex_net2; d_leases := [] |}.
+     d_net2 := Some ex_net2; d_leases := [ex_rec] |}.
 
-Lemma new_total_refuted_net1 : new ex_cfg (fun _ => false) (Doc ex_doc_nonet1) = Panic
-  /\ known_C18_panic (fun _ => false) (Doc ex_doc_nonet1) = 2.
-Proof. vm_compute. auto. Qed.
-Lemma new_total_refuted_net2 : new ex_cfg (fun _ => true) (Doc ex_doc_nonet2) = Panic
-  /\ known_C18_panic (fun _ => true) (Doc ex_doc_nonet2) = 3.
-Proof. vm_compute. auto. Qed.
-Lemma new_total_refuted_v6 : new ex_cfg (fun _ => false) (Doc ex_doc_v6) = Panic
-  /\ known_C18_panic (fun _ => false) (Doc ex_doc_v6) = 1.
-Proof. vm_compute. auto. Qed.
+(* the inputs that made the unrepaired constructor panic now reset to an empty table *)
+Lemma new_former_panics_reset :
+  (exists s, new ex_cfg (fun _ => true) (Doc ex_doc_nonet1) = Ok s /\ d_table s = [])
+  /\ (exists s, new ex_cfg (fun _ => true) (Doc ex_doc_v6) = Ok s /\ d_table s = []).
+Proof. split; eexists; split; vm_compute; reflexivity. Qed.
 
 Example new_total_nonvacuous :
-  is4 (paddr (c_home ex_cfg)) = true /\ known_C18_panic (fun _ => false) (Doc ex_doc) = 0
-  /\ exists s, new ex_cfg (fun _ => false) (Doc ex_doc) = Ok s /\ d_table s <> [].
-Proof. vm_compute. repeat split. eexists. split; [reflexivity|discriminate]. Qed.
+  exists s, new ex_cfg (fun _ => false) (Doc ex_doc) = Ok s /\ d_table s <> [].
+Proof. vm_compute. eexists. split; [reflexivity|discriminate]. Qed.
